@@ -71,6 +71,26 @@ Effective(args) ==
       ins  == [i \in 1..n |-> Tag(ar[i], "around", "in")]
       outs == [i \in 1..n |-> Tag(ar[n + 1 - i], "around", "out")]
   IN ins \o (IF k = 0 THEN Inner(args) ELSE <<Tag(ar[k], "around", "stop")>>) \o outs
+\* A second reading of the method bodies (the harness writes them this way for the histories it runs in its "retry" profile):
+\* version 1 of a primary announces itself and then signals an error (version 2 does not); version 1 of an :around body calls call-next-method
+\* inside ignore-errors, announces "mid", and calls call-next-method again: the next method is the same both times, also after
+\* the first call was left through an error.  Retry(ar, i, args) = [tr, ok] of running the :around methods from the i-th on.
+InnerE(args) ==
+  LET bs == Sel(args, "before")  ps == Sel(args, "primary")  as == Rev(Sel(args, "after"))
+      fails == ps # <<>> /\ Ver("primary", ps[1]) = 1 IN
+  [tr |-> [i \in 1..Len(bs) |-> Tag(bs[i], "before", "before")]
+          \o (IF ps = <<>> THEN <<>> ELSE <<Tag(ps[1], "primary", "primary")>>)
+          \o (IF fails THEN <<>> ELSE [i \in 1..Len(as) |-> Tag(as[i], "after", "after")]),
+   ok |-> ~fails]
+RECURSIVE Retry(_, _, _)
+Retry(ar, i, args) ==
+  IF i > Len(ar) THEN InnerE(args)
+  ELSE IF Ver("around", ar[i]) = 2 THEN [tr |-> <<Tag(ar[i], "around", "stop")>>, ok |-> TRUE]
+  ELSE LET r == Retry(ar, i + 1, args) IN
+       [tr |-> <<Tag(ar[i], "around", "in")>> \o r.tr \o <<Tag(ar[i], "around", "mid")>> \o r.tr
+               \o (IF r.ok THEN <<Tag(ar[i], "around", "out")>> ELSE <<>>),
+        ok |-> r.ok]
+EffectiveRetry(args) == Retry(Sel(args, "around"), 1, args)
 Applicable(args) == \E q \in Quals : Sel(args, q) # <<>>
 \* the outcome is determined by the statement when a primary is applicable, or when an :around stops before it
 Determined(args) == Sel(args, "primary") # <<>> \/ FirstStop(Sel(args, "around")) # 0
@@ -104,7 +124,8 @@ Call(args) ==
     /\ cache' = IF dflt \/ ~Applicable(args) THEN cache ELSE Put(cache, args, ImplCall(args))
     /\ shadow' = Put(shadow, args, Effective(args))
     /\ hist' = Append(hist, [op |-> "call", q |-> "", s |-> args, v |-> 0, exp |-> Effective(args),
-                             app |-> Applicable(args), det |-> Determined(args)])
+                             app |-> Applicable(args), det |-> Determined(args),
+                             exp2 |-> EffectiveRetry(args).tr, ok2 |-> EffectiveRetry(args).ok])
 Next == /\ Len(hist) < MaxOps
         /\ \/ \E q \in Quals, sp \in Specs : Def(q, sp) \/ Rem(q, sp)
            \/ \E a \in Args : Call(a)
